@@ -5,8 +5,8 @@ from .. import strcorpus, runner
 
 
 def generate(tier, rng, pid='C01'):
-    enums = strcorpus.build_enums(rng, tier, pid)
-    enums += strcorpus.build_soup(rng, tier, pid)
+    enums = strcorpus.build_enums(rng, tier, pid, prefix_pool=(None, None, 'pre/', 'é-'))
+    enums += strcorpus.build_soup(rng, tier, pid, prefix_pool=(None, None, 'p_'))
     info = strcorpus.query_model(enums)
     c = Corpus()
     for e in enums:
